@@ -19,6 +19,7 @@ import (
 	"pgregory.net/rapid"
 
 	"verif/harness/internal/ev"
+	"verif/harness/internal/loglevel"
 )
 
 func init() { zerolog.SetGlobalLevel(zerolog.Disabled) }
@@ -386,6 +387,8 @@ type testCase struct {
 	Flows  []flowSpec `json:"flows"`
 	Orders [][]int    `json:"orders"`
 	Txns   []txnSpec  `json:"txns"`
+	// LogLevel: the gateway's log level (LOG_LEVEL), output discarded; "" / "off" = logging disabled
+	LogLevel string `json:"log_level,omitempty"`
 }
 
 func genOrder(n int) *rapid.Generator[[]int] {
@@ -497,7 +500,10 @@ func TestFilterTreeSelection(t *testing.T) {
 			c.Orders = append(c.Orders, genOrder(len(flows)).Draw(t, "order"))
 		}
 		c.Txns = rapid.SliceOfN(genTxn(flows), 1, 8).Draw(t, "txns")
+		c.LogLevel = loglevel.Gen().Draw(t, "log level")
+		r.Class("log level " + c.LogLevel)
 		r.Case()
+		defer loglevel.Set(c.LogLevel)()
 		nt, err := check(r, c)
 		if err != nil {
 			t.Fatalf("%s", r.Fail(c, "%v", err))
